@@ -53,6 +53,21 @@ def c04_projection(case, reply):
     return ".".join("%x" % c for c in out)
 
 
+def number_value_projection(case, reply):
+    """numbers compared as exact decimal values (spelling is not what C16 determines: `16777216`
+    and `16777216.0` are the same number; `null` in place of a number is not)"""
+    import re
+    from decimal import Decimal, InvalidOperation
+    def norm(m):
+        try:
+            text = "".join(chr(int(x, 16)) for x in m.group(1).split("."))
+            d = Decimal(text)
+            return "#<%s>" % (d.normalize() if d != 0 else Decimal(0))
+        except (ValueError, InvalidOperation):
+            return m.group(0)
+    return re.sub(r"#([0-9a-f]+(?:\.[0-9a-f]+)*);", norm, reply)
+
+
 def c03_projection(case, reply):
     """accept / reject / abnormal end: which error a rejected input gets is C07's business"""
     head = reply.split(" ")[0]
@@ -303,6 +318,8 @@ PROPS = {
     "C16": dict(
         tables=[],
         determined=True,
+        projection_determined=lambda case, reply: number_value_projection(case, reply),
+
         technique="Lean 4 theorems about a model of the serde Serializer (JSON shape of every data-model construct, structs = ordered objects, key serializer) fed with data recorded from real derive output; end-to-end round trips through to_value/from_value/serde_json on a family of derive-annotated types (direct oracles)",
         level_text=("PARTIAL proof. A recording serde::Serializer in the harness turns each generated Rust datum into SData (what the datum looks like to a Serializer, as produced by the real serde-derive code); the Lean model `ser` of src/serde/ser.rs "
                     "(Serializer, KeySerializer, StringNumberSerializer, compound serializers, the number-token channel, Object::insert semantics) must return exactly json_syntax::to_value(datum) — this ties the model to ser.rs on every run. "
